@@ -3,7 +3,7 @@ use crate::cx::*;
 use crate::glue::*;
 use crate::prop::*;
 use crate::spec::*;
-use rl2tp::avp::types::result_code::{CodeValue, ErrorType};
+use rl2tp::avp::types::result_code::{CdnCode, CodeValue, ErrorType, StopCcnCode};
 use rl2tp::avp::types::{MessageType, ProxyAuthenType};
 use rl2tp::avp::AVP;
 use serde_json::{json, Value};
@@ -52,6 +52,38 @@ const CDN_NAMES: [&str; 12] = [
     "CallEstablishTimeout",
     "CallNoFramingDetected",
 ];
+
+/// RFC number of a named Stop-CCN result code, by variant name (compile-time match: the Debug text is not used)
+fn stop_num(v: StopCcnCode) -> u16 {
+    match v {
+        StopCcnCode::Reserved => 0,
+        StopCcnCode::GeneralRequestToClearControlConnection => 1,
+        StopCcnCode::GeneralError => 2,
+        StopCcnCode::ControlChannelAlreadyExists => 3,
+        StopCcnCode::RequesterNotAuthorizedToEstablishControlChannel => 4,
+        StopCcnCode::RequesterProtocolVersionUnsupported => 5,
+        StopCcnCode::RequesterShutdown => 6,
+        StopCcnCode::FsmError => 7,
+    }
+}
+
+/// RFC number of a named CDN result code, by variant name
+fn cdn_num(v: CdnCode) -> u16 {
+    match v {
+        CdnCode::Reserved => 0,
+        CdnCode::CallDisconnectedLossOfCarrier => 1,
+        CdnCode::CallDisconnectedWithErrorCode => 2,
+        CdnCode::CallDisconnectedAdministrative => 3,
+        CdnCode::CallFailedTemporarilyUnavailable => 4,
+        CdnCode::CallFailedPermanentlyUnavailable => 5,
+        CdnCode::InvalidDestination => 6,
+        CdnCode::CallFailedNoCarrier => 7,
+        CdnCode::CallFailedBusySignal => 8,
+        CdnCode::CallFailedNoDialTone => 9,
+        CdnCode::CallEstablishTimeout => 10,
+        CdnCode::CallNoFramingDetected => 11,
+    }
+}
 
 fn parts(_t: Tier) -> Vec<Part> {
     vec![enumerate("codes", 65536), enumerate("named", 14 + 9 + 6 + 8 + 12)]
@@ -181,7 +213,7 @@ fn check_code(x: u16, cx: &mut Cx) -> Res {
     }
     let views = guard(|| {
         let cv = CodeValue::from(x);
-        (cv.as_stop_ccn().map(|v| format!("{:?}", v)), cv.as_cdn().map(|v| format!("{:?}", v)), u16::from(cv))
+        (cv.as_stop_ccn().map(stop_num), cv.as_cdn().map(cdn_num), u16::from(cv))
     });
     match views {
         Caught::Ok((s, c, raw)) => {
@@ -189,14 +221,14 @@ fn check_code(x: u16, cx: &mut Cx) -> Res {
                 return fail(format!("CodeValue::from({}) converts back to {}", x, raw), json!({"code": x}));
             }
             match (&s, x <= 7) {
-                (Ok(name), true) if name == STOP_NAMES[x as usize] => {}
+                (Ok(n), true) if *n == x => {}
                 (Err(_), false) => {}
-                _ => return fail(format!("Stop-CCN view of result code {}: {:?} (RFC: {})", x, s, if x <= 7 { STOP_NAMES[x as usize] } else { "not convertible" }), json!({"code": x})),
+                _ => return fail(format!("Stop-CCN view of result code {}: {} (RFC: {})", x, match &s { Ok(n) => format!("the named value of number {}", n), Err(_) => "not convertible".to_string() }, if x <= 7 { STOP_NAMES[x as usize] } else { "not convertible" }), json!({"code": x})),
             }
             match (&c, x <= 11) {
-                (Ok(name), true) if name == CDN_NAMES[x as usize] => {}
+                (Ok(n), true) if *n == x => {}
                 (Err(_), false) => {}
-                _ => return fail(format!("CDN view of result code {}: {:?} (RFC: {})", x, c, if x <= 11 { CDN_NAMES[x as usize] } else { "not convertible" }), json!({"code": x})),
+                _ => return fail(format!("CDN view of result code {}: {} (RFC: {})", x, match &c { Ok(n) => format!("the named value of number {}", n), Err(_) => "not convertible".to_string() }, if x <= 11 { CDN_NAMES[x as usize] } else { "not convertible" }), json!({"code": x})),
             }
         }
         _ => return fail(format!("result-code views panicked for {}", x), json!({"code": x})),
@@ -408,8 +440,8 @@ fn check_named(i: u64, cx: &mut Cx) -> Res {
             other => return bad(format!("ProxyAuthenType::{:?} does not encode to RFC number {}: {:?}", v, n, other.map(|e| hex(&e)))),
         }
     } else {
-        // Stop-CCN / CDN named values are looked up by *name* among all convertible codes (no compile-time dependency
-        // on the variant list: a missing or renumbered variant is a violation, not a build failure)
+        // Stop-CCN / CDN named values are found among all convertible codes and identified by a compile-time match on the
+        // variant (the Debug text, which no property constrains, is not used; removing a variant breaks the harness build)
         let (stop, n) = if i < 37 { (true, (i - 29) as u16) } else { (false, (i - 37) as u16) };
         let name = if stop { STOP_NAMES[n as usize] } else { CDN_NAMES[n as usize] };
         let r = guard(|| {
@@ -418,12 +450,12 @@ fn check_named(i: u64, cx: &mut Cx) -> Res {
                 let cv = CodeValue::from(x);
                 if stop {
                     if let Ok(v) = cv.as_stop_ccn() {
-                        if format!("{:?}", v) == name {
+                        if stop_num(v) == n {
                             found.push((x, u16::from(CodeValue::from(v))));
                         }
                     }
                 } else if let Ok(v) = cv.as_cdn() {
-                    if format!("{:?}", v) == name {
+                    if cdn_num(v) == n {
                         found.push((x, u16::from(CodeValue::from(v))));
                     }
                 }
